@@ -67,8 +67,14 @@ def add_unit(kind):
         g = M.Ghost(m)
         before = M.snapshot(m)
         a = M.mk_atom(V, "new", parent=None)
-        ncoord = V.choose([3, 2], "coord-length")
-        coord = ListV([V.sym(f"c{i}", "real") for i in range(ncoord)])
+        ncoord = V.choose([3, 2, "1x3", "3x1"], "coord-length")
+        cs = [V.sym(f"c{i}", "real") for i in range(3)]
+        if ncoord == "1x3":
+            coord = ListV([ListV(cs)])                      # three numbers, but not a 3-vector
+        elif ncoord == "3x1":
+            coord = ListV([ListV([c]) for c in cs])
+        else:
+            coord = ListV(cs[:ncoord])
         args = [a, coord]
         charge = "absent"
         if kind == "Molecule":
@@ -241,10 +247,12 @@ def append_bond_unit(variant):
         g = M.Ghost(m)
         before = M.snapshot(m)
         atoms = before["atoms"]
-        foreign = V.choose([False, True], "foreign-endpoint")
-        a2 = M.mk_atom(V, "foreign") if foreign else atoms[2]
+        foreign = V.choose([False, True, "formerly-own"], "foreign-endpoint")
+        # "formerly-own": an atom that was deleted from this molecule earlier in the history (del_atom leaves its parent pointer alone)
+        a2 = M.mk_atom(V, "foreign", parent=(m if foreign == "formerly-own" else None)) if foreign else atoms[2]
         b1 = M.mk_bond(V, "nb1", atoms[1], a2)
-        V.witness(lambda ev: {"op": variant, "kind": kind, "foreign": foreign, "signature": f"{variant}/{'foreign' if foreign else 'own'}"})
+        V.witness(lambda ev: {"op": variant, "kind": kind, "foreign": bool(foreign), "formerly_own": foreign == "formerly-own",
+                              "signature": f"{variant}/{'foreign' if foreign else 'own'}"})
         V.cover()
         if variant == "append_bond":
             out = V.method(m, "append_bond", [b1], qual=f"{M.CLS['Connectivity']}.append_bond")
